@@ -239,6 +239,15 @@ class HarnessError(Exception):
     pass
 
 
+class UnclockedLogic(Exception):
+    """the design has logic in a clock domain that nobody declares or schedules (e.g. a crossing built for the
+    wrong domains): a structural finding about the design, not a harness error"""
+
+    def __init__(self, names):
+        Exception.__init__(self, ", ".join(names))
+        self.names = names
+
+
 class EdgeTime:
     """sim.time replacement.  instants: list of masks over `domains` (two names); after the list is used up
     the last 64 instants are repeated (callers size the list to the cycle limit, so this is a guard only).
@@ -360,13 +369,18 @@ class LazyProbe:
         return None
 
 
-def run(dut, agents, instants, domains, meta, limit=None, stop=None, box=None):
+def run(dut, agents, instants, domains, meta, limit=None, stop=None, box=None, registry=None):
     """Simulate dut under the generated instants.  agents: dict domain -> list (the first domain hosts the
     cycle limiter).  stop(tm) -> bool is evaluated at every edge of the first domain.  box (dict) receives
     the EdgeTime object under "tm" as soon as it exists.  Returns (EdgeTime, registry of synchronisers)."""
     from vlib import bench
-    registry = []
+    from migen.fhdl.tools import list_clock_domains
+    registry = [] if registry is None else registry
     box = {} if box is None else box
+    frag = dut.get_fragment()
+    unknown = sorted(set(list_clock_domains(frag)) - {cd.name for cd in frag.clock_domains} - set(agents))
+    if unknown:
+        raise UnclockedLogic(unknown)
     limit = len(instants) if limit is None else limit
 
     def mk(sim):
@@ -377,5 +391,5 @@ def run(dut, agents, instants, domains, meta, limit=None, stop=None, box=None):
         tm = box["tm"]
         return tm.k >= limit or (stop is not None and stop(tm))
 
-    bench.run(dut, agents, limit + 1, stop=stop_, special_overrides=overrides(registry), time_manager=mk)
+    bench.run(frag, agents, limit + 1, stop=stop_, special_overrides=overrides(registry), time_manager=mk)
     return box["tm"], registry
